@@ -78,3 +78,11 @@ Definition sess_conditions_v1 : list (string * list string) := [
      "if err := Persistence.SaveSession(oldestSessionID, c.sessions[oldestSessionID]); err != nil"]);
   ("deleteCookie", []);
   ("initCache", [])].
+
+(* Every use of the per-ID lock manager: Start and LogIn take the lock for the
+   ID and release it by defer, nothing else touches it. *)
+Definition idlock_uses_v1 : list (string * string) := [
+  ("Start", "sessionIDMutexes.Lock(id)");
+  ("Start", "defer sessionIDMutexes.Unlock(id)");
+  ("Session.LogIn", "sessionIDMutexes.Lock(id)");
+  ("Session.LogIn", "defer sessionIDMutexes.Unlock(id)")].
